@@ -109,31 +109,31 @@ type extEffect struct {
 }
 
 var extPureExact = map[string]extEffect{
-	"bytes.Compare":      {},
-	"bytes.Equal":        {},
-	"bytes.HasPrefix":    {},
-	"bytes.IndexByte":    {},
-	"fmt.Sprintf":        {},
-	"fmt.Sprint":         {},
-	"fmt.Errorf":         {},
-	"reflect.ValueOf":    {retAlias: []int{0}},
-	"reflect.TypeOf":     {},
-	"errors.New":         {},
-	"sort.Strings":       {writes: []int{0}},
-	"sort.Ints":          {writes: []int{0}},
-	"sort.Slice":         {writes: []int{0}},
-	"sort.SliceStable":   {writes: []int{0}},
-	"sort.Sort":          {writes: []int{0}},
-	"sort.Stable":        {writes: []int{0}},
-	"sort.SearchInts":    {},
-	"sort.SearchStrings": {},
-	"sort.Search":        {},
-	"encoding/binary.Read":  {writes: []int{2}},
-	"encoding/binary.Write": {writes: []int{0}},
-	"io.ReadFull":           {writes: []int{0, 1}},
-	"io.ReadAtLeast":        {writes: []int{0, 1}},
-	"io.CopyN":              {writes: []int{0, 1}},
-	"io.Copy":               {writes: []int{0, 1}},
+	"bytes.Compare":                  {},
+	"bytes.Equal":                    {},
+	"bytes.HasPrefix":                {},
+	"bytes.IndexByte":                {},
+	"fmt.Sprintf":                    {},
+	"fmt.Sprint":                     {},
+	"fmt.Errorf":                     {},
+	"reflect.ValueOf":                {retAlias: []int{0}},
+	"reflect.TypeOf":                 {},
+	"errors.New":                     {},
+	"sort.Strings":                   {writes: []int{0}},
+	"sort.Ints":                      {writes: []int{0}},
+	"sort.Slice":                     {writes: []int{0}},
+	"sort.SliceStable":               {writes: []int{0}},
+	"sort.Sort":                      {writes: []int{0}},
+	"sort.Stable":                    {writes: []int{0}},
+	"sort.SearchInts":                {},
+	"sort.SearchStrings":             {},
+	"sort.Search":                    {},
+	"encoding/binary.Read":           {writes: []int{2}},
+	"encoding/binary.Write":          {writes: []int{0}},
+	"io.ReadFull":                    {writes: []int{0, 1}},
+	"io.ReadAtLeast":                 {writes: []int{0, 1}},
+	"io.CopyN":                       {writes: []int{0, 1}},
+	"io.Copy":                        {writes: []int{0, 1}},
 	"unicode/utf8.RuneCountInString": {},
 }
 
@@ -401,7 +401,6 @@ func (c *effCtx) bindingRoots(b ssa.Value) rootset {
 	}
 	return rs
 }
-
 
 func allArgs(com *ssa.CallCommon) []ssa.Value {
 	if com.IsInvoke() {
